@@ -222,6 +222,11 @@ func formatSelectionSetForInterface(ctx *PlanningContext, insertionPoint []strin
 
 	resSelectionSet := addTypenameFieldToSelectionSet(nil)
 	for _, def := range defs {
+		// a service can't return (and can't be asked about) an implementation it doesn't declare
+		if declared, ok := ctx.TypeURLMap.IsDeclaredBy(def.Name, location); ok && !declared {
+			continue
+		}
+
 		// remove fragments and inline fragment for specific definition
 		fieldsSelSet := selectionSetToFieldsRepresentation(selectionSet, def)
 
